@@ -429,3 +429,32 @@ def rule_copy_width(P):
         raise AnalysisBroken("dispatch.copy-width: expected ≥4 same-family copyInto reads in copy_EV<…>::_compute, found %d" % n)
     R.require_floor(4, "same-family edge-value reads in copy_EV")
     return R
+
+
+def rule_identity_expansion(P):
+    """copy_MT rebuilds the skipped identity levels of an identity-reduced source with resF->makeIdentitiesTo().  An identity pattern built in the
+    target has the *target's* transparent value off the diagonal; the source has 0 there.  The two agree when the target is multi-terminal or EV*
+    (transparent 0) and disagree for an EV+ target (transparent +infinity): the expansion must be guarded by the target's labeling"""
+    R = RuleResult("dispatch.identity-expansion", "in copy_MT::_compute every resF->makeIdentitiesTo() is control-dependent on a test of the target forest's labeling that excludes EV+ targets (whose transparent value is +infinity, not the converted zero)")
+    fs = [f for f in P.fns.values() if f["q"] == M + "copy_MT::_compute" and f.get("cfg")]
+    if not fs:
+        raise AnalysisBroken("dispatch.identity-expansion: copy_MT::_compute not found")
+    f = fs[0]
+    g = Graph(f)
+    R.functions.add(f["inst"])
+    calls = sorted([k for k in g.nodes if k.kind == "call" and k.ev["q"].endswith("::makeIdentitiesTo") and "resF" in str(k.ev.get("recv"))], key=lambda k: k.line)
+    if not calls:
+        raise AnalysisBroken("dispatch.identity-expansion: copy_MT::_compute no longer expands identities in the target")
+    for n_, k in enumerate(calls):
+        R.paths += 1
+        ctx = [(re.sub(r"\s+", "", t).replace("this->", ""), arm) for t, arm in _context(g, k)]
+        guarded = any((t.lstrip("!") in ("resF->isEVPlus()", "resF->isIndexSet()") and ((arm == "false") != t.startswith("!"))) or
+                      (t.lstrip("!") in ("resF->isMultiTerminal()", "resF->isEVTimes()") and ((arm == "true") != t.startswith("!"))) for t, arm in ctx)
+        iid = "copy_MT::_compute: identity expansion #%d in the target is guarded by the target's labeling" % (n_ + 1)
+        if guarded:
+            R.ok(iid, where(f, k.line))
+        else:
+            R.fail(iid, where(f, k.line), Finding(R.rule, f["file"], f["q"], "makeIdentitiesTo#%d" % (n_ + 1),
+                   "the skipped identity levels of the source are rebuilt with resF->makeIdentitiesTo() whatever the target's labeling: in an EV+ target the off-diagonal entries of the pattern are +infinity, in the multi-terminal source they are 0", k.line))
+    R.require_floor(2, "identity expansions in copy_MT")
+    return R
